@@ -18,6 +18,8 @@ type blob struct {
 	strVar *smt.Term
 	id     int
 	raw    bool // contains caller text spliced through an innerxml field
+	indent bool // produced by MarshalIndent
+	tokens []xtok
 }
 
 // snapVal deep-copies v including everything it points to.
@@ -94,11 +96,17 @@ func (x *exec) blobString(b *blob) value {
 }
 
 func init() {
-	marshal := func(fr *frame, args []value) value {
+	externals["encoding/xml.Marshal"] = func(fr *frame, args []value) value {
 		itf := args[0].(iface)
 		b := fr.i.x.newBlob(itf.v, itf.t)
 		return tuple{b, iface{}}
 	}
-	externals["encoding/xml.Marshal"] = marshal
-	externals["encoding/xml.MarshalIndent"] = marshal
+	externals["encoding/xml.MarshalIndent"] = func(fr *frame, args []value) value {
+		itf := args[0].(iface)
+		b := fr.i.x.newBlob(itf.v, itf.t)
+		if ind, ok := args[2].(string); ok && ind != "" {
+			b.indent = true
+		}
+		return tuple{b, iface{}}
+	}
 }
